@@ -71,7 +71,14 @@ def refeval(d, store, funcs, log=None):
             r = r * refeval(x, store, funcs, log)
         return r
     if k == "/":
-        return refeval(d[1], store, funcs, log) / refeval(d[2], store, funcs, log)
+        a, b = refeval(d[1], store, funcs, log), refeval(d[2], store, funcs, log)
+        # what the statement constructors store (pymbolic.flatten): 0/x is 0 and x/1 is x -- an int stays an int
+        # (0/1 as a Python float would, e.g., be refused as an array index where the stored program has the int 0)
+        if type(a) is int and a == 0:
+            return 0
+        if type(b) is int and b == 1:
+            return a
+        return a / b
     if k == "//":
         return refeval(d[1], store, funcs, log) // refeval(d[2], store, funcs, log)
     if k == "%":
